@@ -885,8 +885,8 @@ func main() {
 					if inc.Passed != fresh.Passed {
 						cls := classify(h, i, name)
 						if len(st.Inv.Args) > 0 && !inc.Ran && inc.Passed && ranPassInputs[in] {
-							// the known defect: needToRun ignores the arguments and hands out the stored result of an
-							// ARGUMENT-LESS passing run with the current command and test directory
+							// the defect repaired by /repo bdc0c8a (regression class): needToRun ignores the arguments and hands
+							// out the stored result of an ARGUMENT-LESS passing run with the current command and test directory
 							cls = "run-with-arguments-reuses-argumentless-result"
 						}
 						c.Fail(cls, fmt.Sprintf("//p:%s after %v: incremental `%s` reports passed=%v (cached=%v), the same invocation on a fresh copy of the same tree passed=%v",
@@ -907,6 +907,13 @@ func main() {
 							cls = "reused-without-passing-run"
 						}
 						c.Fail(cls, fmt.Sprintf("//p:%s after %v (`%s`): a result was reused although no earlier run WITHOUT test arguments with the current effective test command and test directory passed", name, st.Edit, inv), withHist())
+					}
+					c.Oracle()
+					if len(st.Inv.Args) > 0 && !inc.Ran && inc.Passed == fresh.Passed {
+						// an invocation with test arguments never reuses a result, whether or not the arguments change the
+						// outcome (a differing outcome is reported above)
+						c.Fail("run-with-arguments-reuses-argumentless-result", fmt.Sprintf("//p:%s after %v: `%s` was given test arguments but the test command did not run (reported cached=%v)",
+							name, st.Edit, inv, inc.Cached), withHist())
 					}
 					if inc.Ran && inc.Passed && len(st.Inv.Args) == 0 {
 						ranPassInputs[in] = true
